@@ -631,7 +631,9 @@ theorem processEvent_rel (hR : EngRel R) (h : Hooks) (hh : HooksRel R h) (fl : F
     · exact hR.refl s
     · split
       · exact hR.refl s
-      · exact execute_rel hR h hh fl m ev _ s
+      · split
+        · exact hR.refl s
+        · exact execute_rel hR h hh fl m ev _ s
 
 theorem transientLoop_rel (hR : EngRel R) (h : Hooks) (hh : HooksRel R h) (fl : Flavor) (m : Machine)
     (u : UEnv) : ∀ (fuel : Nat) (s : St), R s (transientLoop h fl m u fuel s) := by
@@ -1080,12 +1082,14 @@ theorem processEvent_core (h₁ h₂ : Hooks) (hq₁ : HooksQuiet h₁) (hq₂ :
   · rename_i sel _
     apply foldl_core
     · intro a b c hab
-      simp only [hab.err, hab.cfg, hab.hist]
+      simp only [hab.err, hab.cfg, hab.hist, hab.status]
       split
       · exact hab
       · split
         · exact hab
-        · exact execute_core h₁ h₂ hq₁ hq₂ hn₁ hn₂ fl m ev _ a b hab
+        · split
+          · exact hab
+          · exact execute_core h₁ h₂ hq₁ hq₂ hn₁ hn₂ fl m ev _ a b hab
     · exact hs
 
 theorem transientLoop_core (h₁ h₂ : Hooks) (hq₁ : HooksQuiet h₁) (hq₂ : HooksQuiet h₂) (hn₁ : NoConfigErrors h₁)
